@@ -60,6 +60,8 @@ def spell(tok: str, variant: int, rng: random.Random) -> str:
     d / x value prefix in variant 5"""
     keyword = tok.startswith(('OP_', 'NOP', 'END_')) or tok in ('ELSE', 'EXCEPT')
     if not keyword:
+        if variant == 5 and len(tok) > 1 and tok[0] == 'f' and tok[1:].lstrip('-').replace('.', '', 1).isdigit():
+            return 'F' + tok[1:]
         if variant == 5 and len(tok) > 1 and tok[0] in 'dx' and (tok[1:].lstrip('-').isdigit() if tok[0] == 'd' else True) \
                 and all(ch in '0123456789abcdef-' for ch in tok[1:]):
             return tok[0].upper() + tok[1:]
@@ -191,6 +193,22 @@ FMT_B1 = [2, 5, 7, 14, 15, 16, 21, 22, 27, 28, 31, 35, 36, 42, 54, 72, 76, 77, 7
 FMT_0 = [i for i in range(92) if i not in FMT_B1 and i not in (52, 70, 71, 23, 25, 60, 3, 10, 11, 17, 19, 49, 50, 64, 9, 4, 43, 69, 44, 61, 41)]
 
 
+def rand_f32(r: random.Random, integral=False) -> bytes:
+    """binary32 pattern of a small dyadic value (odd significand < 2^10, exponent -6..6; or 0 / -0)"""
+    import struct
+    if r.random() < 0.1:
+        return struct.pack('!f', r.choice([0.0, -0.0]))
+    m = r.randrange(1, 1024, 2)
+    e = r.randrange(0, 7) if integral else r.randrange(-6, 7)
+    return struct.pack('!f', r.choice([1, -1]) * m * 2.0 ** e)
+
+
+def f_text(b) -> str:
+    import struct
+    from decimal import Decimal
+    return format(Decimal(struct.unpack('!f', bytes(b))[0]), 'f')
+
+
 def rand_val(r: random.Random, allow_s=True):
     c = r.random()
     if c < 0.35:
@@ -199,9 +217,9 @@ def rand_val(r: random.Random, allow_s=True):
         from .ref.opsem import enc
         import math
         n = r.choice([1, -1]) * (2 ** r.choice([24, 31, 32, 63, 64, 100, 255]) + r.randrange(-2, 3))
-        if math.floor(math.log2(abs(n))) + 1 != abs(n).bit_length():
-            n = n + 4 if n > 0 else n - 4      # integers whose VM encoding is not minimal are C10's domain
         return V('D', b=enc(n))
+    if c < 0.5:
+        return V('f', b=rand_f32(r))
     if c < 0.8 or not allow_s:
         return V('x', b=r.randbytes(r.choice([0, 1, 2, 3, 20, 32, 64, 255, 256, 300])))
     word = lambda: ''.join(r.choice('abcxyz019') for _ in range(r.randrange(1, 6)))
@@ -246,6 +264,8 @@ def rand_node(r: random.Random, depth: int):
     if c < 0.78:
         return mk('b3', r.choice([70, 71]), bytes([r.randrange(256), r.randrange(256), r.randrange(256)]))
     if c < 0.81:
+        if r.random() < 0.4:
+            return mk('f4', r.choice([23, 25]), rand_f32(r, integral=True), st='f')
         return mk('f4', r.choice([23, 25]), r.randbytes(4))
     if c < 0.84:
         return mk('h32', 60, r.randbytes(32))
@@ -290,6 +310,8 @@ def val_tok(v):
         return f"d{int.from_bytes(bytes(v['b']), 'big', signed=True)}"
     if v['k'] == 'x':
         return 'x' + hexb(v['b'])
+    if v['k'] == 'f':
+        return 'f' + f_text(v['b'])
     return 's"' + bytes(v['b']).decode() + '"'
 
 
@@ -310,7 +332,7 @@ def toks(x) -> list:
     if n == 'b3':
         return [opname(x['a']), 'x%02x' % x['y'][0], f"d{x['y'][1]}", f"d{x['y'][2]}"]
     if n in ('f4', 'h32'):
-        return [opname(x['a']), 'x' + hexb(x['y'])]
+        return [opname(x['a']), ('f' + f_text(x['y'])) if x['st'] == 'f' else 'x' + hexb(x['y'])]
     if n == 's1':
         return [opname(x['a']), val_tok(x['v'])]
     if n == 'wc':
@@ -410,6 +432,37 @@ def record_dis(seed: int, count: int, maxlen: int, corpus: list):
             body = r.randbytes(n)
             b = r.choice([bytes([4]) + n.to_bytes(2, 'big') + body, bytes([43]) + n.to_bytes(2, 'big') + body,
                           bytes([4]) + r.choice([b'\x7f\xff', b'\x80\x00', b'\xff\xff']) + body, body])
+        st, lines = with_timeout(lambda: ts.decompile_script(b), 20)
+        relisted = []
+        if st == 'ok':
+            st2, back = with_timeout(lambda: ts.compile_script('\n'.join(lines)), 20)
+            relisted = list(back) if st2 == 'ok' else [999]
+        out.append({'k': 'dis', 'p': [], 'accepted': False, 'got': [], 'b': list(b), 'ok': st == 'ok', 'relisted': relisted,
+                    'src': '', 'timeout': st == 'timeout'})
+    return out
+
+
+def boundary_dis_cases():
+    """operand sizes on both sides of 2^7, 2^8, 2^15 and 2^16: pushes of exactly those sizes and blocks whose body
+    (one push filling it) has exactly those sizes"""
+    ts = _impl()
+    out = []
+    strings = []
+    for n in (127, 128, 129, 254, 255):
+        strings.append(bytes([3, n]) + bytes([n % 251] * n) + b'\x01')
+    for n in (255, 256, 257, 32767, 32768, 32769, 65534, 65535):
+        body = bytes([4]) + n.to_bytes(2, 'big') + bytes([(n + 7) % 251] * n)
+        strings.append(body + b'\x01')
+        if len(body) <= 65535:
+            for opc in (43, 69):
+                strings.append(b'\x01' + bytes([opc]) + len(body).to_bytes(2, 'big') + body)
+            strings.append(bytes([41, 5]) + len(body).to_bytes(2, 'big') + body)
+            strings.append(bytes([61]) + len(body).to_bytes(2, 'big') + body + b'\x00\x01\x01')
+            strings.append(bytes([44]) + b'\x00\x01\x01' + len(body).to_bytes(2, 'big') + body)
+    for n in (32764, 65532):          # a block body of exactly 2^15 - 1 / 2^16 - 1 bytes
+        body = bytes([4]) + n.to_bytes(2, 'big') + bytes([9] * n)
+        strings.append(b'\x01' + bytes([43]) + len(body).to_bytes(2, 'big') + body)
+    for b in strings:
         st, lines = with_timeout(lambda: ts.decompile_script(b), 20)
         relisted = []
         if st == 'ok':
